@@ -2,14 +2,14 @@
 from harness import common as C
 from harness import l2
 
-FILES = ["Engine/Toposort.v", "Engine/ToposortProof.v", "Engine/Tagged.v", "Engine/Tower.v", "Engine/Run08.v", "Engine/TaggedProof.v", "Engine/TowerAlg.v", "Engine/FwdCorrect.v", "Engine/FwdStep.v", "Engine/FwdEval.v", "Engine/TowerRing.v", "Engine/MixInterp.v", "Engine/MixStep.v", "Engine/MixBackward.v", "Engine/MixEval.v", "Rules/RealPrelude.v", "Rules/PiecewiseConst.v", "Rules/NogradTie.v", "Rules/Run14.v", "Props/C14.v"]
+FILES = ["Engine/Toposort.v", "Engine/ToposortProof.v", "Engine/Tagged.v", "Engine/Tower.v", "Engine/Run08.v", "Engine/TaggedProof.v", "Engine/TowerAlg.v", "Engine/FwdCorrect.v", "Engine/FwdStep.v", "Engine/FwdEval.v", "Engine/TowerRing.v", "Engine/MixInterp.v", "Engine/MixStep.v", "Engine/MixBackward.v", "Engine/MixEval.v", "Rules/RealPrelude.v", "Rules/PiecewiseConst.v", "Rules/NogradTie.v", "Rules/Run14.v", "Operators/Extend.v", "Engine/IndependentTie.v", "Props/C14.v"]
 RULE = ("(a) random nested programs in which half of the differentiated bodies do not mention their own variable and "
         "sign() (registered non-differentiable) occurs; plus implementation-only oracle cases with container "
         "arguments and the exported piecewise-constant functions; distinct by program text; non-trivial when a "
         "differential operator is applied to an independent or sign-dependent body; (b) the fourteen proved piecewise-constant "
         "members at floats read as dyadic rationals (integers, half-integers, 2^-45 next to a jump, 2^70, 1e-300, comparisons "
         "at equality), value under tracing and gradient of x*f(x) in both modes, evaluated against the integer model in Coq")
-TRUST = ["translator harness/translators/nograd.py (the literal list nograd_functions and its two registration loops)", "floats are the dyadic rationals float.as_integer_ratio() reports",
+TRUST = ["translator harness/translators/nograd.py (the literal list nograd_functions and its two registration loops; the dependence test of tracer.trace and the zero answers of core.make_vjp / make_jvp)", "floats are the dyadic rationals float.as_integer_ratio() reports",
          "oracle-only cases (containers, exported nograd functions) are decided on the implementation by exact comparison with zeros of the argument's structure / with NumPy"]
 ASSUMPTIONS = ["scalar object language for the theorem; array/container zeros are checked on the implementation only"]
 OPTS = {"maxd": 3, "sign": True, "indep": 0.5}
